@@ -237,8 +237,10 @@ def sweep_nf(ctx, chk, rule, qual, fields, kernel_meth, domain_is_param):
     W = whiles[0]
     where = f.where(W.node)
     thr = ("attr", ("v", "self"), "threshold")
-    # exit test
-    c = W.cond
+    # exit test (optional solver settings that are constants at the one construction site are folded in: `max_iterations=None`)
+    from ..symx import subst, deep_simp
+    consts = {("attr", ("v", "self"), k_): C(v_) for k_, v_ in shared.solver_field_consts(ctx).items() if k_ != "threshold"}
+    c = deep_simp(subst(W.cond, lambda x: consts.get(x))) if consts else W.cond
     dvar = None
     if c[0] == "cmp" and c[1] == "<" and c[2] == thr and c[3][0] == "acc" and c[3][1] == W.id:
         dvar = c[3][2]
